@@ -53,3 +53,38 @@ def reach_effects(F, roots, edge_filter=None, stop=None):
         for e in direct_effects(F, g):
             found.append((g, e))
     return par, found
+
+
+def impure_set(F):
+    """workspace functions from which an RNG / clock / IO / interior-mutability / thread-local effect is reachable (reverse call-graph closure)"""
+    s = getattr(F, "_impure_set", None)
+    if s is not None:
+        return s
+    idx = cg.callers_index(F)
+    s = set()
+    work = [fid for fid in F.fns if any(e[0] != "logger" for e in direct_effects(F, fid))]
+    s.update(work)
+    while work:
+        g = work.pop()
+        for c in idx.get(g, ()):
+            cid = c[0] if isinstance(c, tuple) else c
+            if cid not in s:
+                s.add(cid)
+                work.append(cid)
+    F._impure_set = s
+    return s
+
+
+def impure_call(F):
+    imp = impure_set(F)
+
+    def pred(t):
+        for name in (t["callee"], t.get("res")):
+            if name and name.startswith(RNG + CLOCK + IO + INTERIOR):
+                return True
+        try:
+            tg = cg.call_targets(F, t)
+        except Exception:
+            return True
+        return any(g in imp for g in tg)
+    return pred
